@@ -18,7 +18,7 @@ LEVEL = "exploration"
 RULE = (
     "messages drawn from the full grammar (harness/gen.py msg_spec: all kinds, every subset of optional attributes, "
     "0..5 children, XML-representable text); for each message an independently rebuilt copy and EVERY single-point "
-    "perturbation (each attribute changed/dropped/added, Python-float attributes that differ only beyond the sixth decimal, text changed, child text empty instead of absent, one character in the "
+    "perturbation (each attribute changed/dropped/added, Python-float attributes that differ only beyond the sixth decimal, look-alike spellings (NFC/NFD, compatibility, case and blank twins) at the same place, text changed, child text empty instead of absent, one character in the "
     "middle of a 1200- / 9000-character child value changed, each child index changed/renamed/dropped/"
     "duplicated/swapped with its neighbour, kind swapped for a sibling kind with the same fields) is compared with "
     "== and != in both orders against equality of the expected structural views computed from the specs. A case (one "
@@ -205,6 +205,37 @@ def check_message(spec):
                     raise Failure("eq-mismatch:float-attribute-differs:child", f"child {i} step={x!r} vs {y!r} compare equal for {spec}")
                 n += 1
             break
+    # look-alike spellings: canonically / compatibility-equivalent Unicode sequences, case twins and blank twins are
+    # different code-point sequences (and different bytes on the wire), so the messages differ
+    twins = [("\u00e9", "e\u0301"), ("\u212b", "\u00c5"), ("\u2126", "\u03a9"), ("\ufb01", "fi"), ("\u00df", "ss"), ("\u00a0x", " x"), ("K", "\u212a"), ("I", "\u0131")]
+    free_attr = next((a_ for a_ in spec["attrs"] if a_ not in gen.VOCAB_ATTRS), None)
+    sites = []
+    if free_attr is not None:
+        sites.append(("attr", None, free_attr))
+    for i, c in enumerate(spec.get("children", [])):
+        if "name" in c["attrs"]:
+            sites.append(("child-attr", i, "name"))
+        if gen.PARTS[c["kind"]][2] == "free":
+            sites.append(("child-text", i, None))
+        break
+    if spec.get("text") is not None and gen.MESSAGES[spec["kind"]][2] == "free":
+        sites.append(("text", None, None))
+    for where, i, a_name in sites:
+        for x, y in twins:
+            pa, pb = copy.deepcopy(spec), copy.deepcopy(spec)
+            for p_, t_ in ((pa, x), (pb, y)):
+                if where == "attr":
+                    p_["attrs"][a_name] = "v" + t_
+                elif where == "child-attr":
+                    p_["children"][i]["attrs"][a_name] = "v" + t_
+                elif where == "child-text":
+                    p_["children"][i]["text"] = "v" + t_
+                else:
+                    p_["text"] = "v" + t_
+            if gen.expected_view(pa) != gen.expected_view(pb):
+                _pair(pa, pb, f"lookalike-spelling-{where}")
+                n += 1
+        labels.add("lookalike-spelling")
     # long values (a BLOB payload, a long text) that differ in ONE character somewhere in the middle
     for i, c in enumerate(spec.get("children", [])):
         prule = gen.PARTS[c["kind"]][2]
